@@ -26,8 +26,10 @@ Proof.
   destruct (Z.ltb_spec (((fst t1 * pw) / snd t1 + 1) * snd t2) (fst t2 * pw)) as [Hlt|Hge].
   - inversion H; subst k pw'. split; [assumption|]. split; [|assumption].
     pose proof (Z.div_mod (fst t1 * pw) (snd t1) ltac:(lia)) as Hd.
-    pose proof (Z.mod_pos_bound (fst t1 * pw) (snd t1) Hm) as Hb. nia.
-  - apply (IH (2 * pw)); try assumption; lia.
+    pose proof (Z.mod_pos_bound (fst t1 * pw) (snd t1) Hm) as Hb.
+    set (q := fst t1 * pw / snd t1) in *. set (r := (fst t1 * pw) mod snd t1) in *.
+    replace ((q + 1) * snd t1) with (snd t1 * q + snd t1) by ring. lia.
+  - clear Hge. apply (IH (2 * pw)); try assumption; lia.
 Qed.
 
 (* the sample is a point of the segment, strictly inside the sub-edge ]t1, t2[ *)
@@ -38,7 +40,7 @@ Theorem sample_inside_subedge : forall a b t1 t2 k pw,
   /\ 0 < k < pw /\ fst t1 * pw < k * snd t1 /\ k * snd t2 < fst t2 * pw.
 Proof.
   intros a b t1 t2 k pw Hn1 Hm1 Hm2 Hle H.
-  destruct (dyadic_spec _ _ _ _ _ _ ltac:(lia) Hn1 Hm1 H) as (Hpw & H1 & H2).
+  destruct (dyadic_spec DY_FUEL 2 t1 t2 k pw ltac:(lia) Hn1 Hm1 H) as (Hpw & H1 & H2).
   assert (0 < k) by nia. assert (k < pw) by nia.
   split; [|repeat split; lia].
   unfold at_param, sample_pt. repeat split; try lia; ring.
@@ -96,22 +98,29 @@ Proof.
   destruct (Z.leb_spec (ux * vx + uy * vy) 0) as [Hd|Hd].
   - (* nearest point: a *)
     apply Z.leb_le in H.
-    exists (ax, ay, 1), 0, 1. split; [unfold at_param; cbn; repeat split; lia|]. split; [cbn; lia|].
-    unfold within. subst vx vy. nia.
+    exists (ax, ay, 1), 0, 1. split; [unfold at_param; cbn [fst snd]; repeat split; try lia; ring|]. split; [cbn [snd]; lia|].
+    unfold within.
+    replace (x * 1 - ax * w) with vx by (subst vx; ring). replace (y * 1 - ay * w) with vy by (subst vy; ring).
+    replace (w * 1 * (w * 1)) with (w * w) by ring. exact H.
   - destruct (Z.leb_spec (w * (ux * ux + uy * uy)) (ux * vx + uy * vy)) as [He|He].
     + apply Z.leb_le in H.
-      exists (bx, by_, 1), 1, 1. split; [unfold at_param; cbn; repeat split; lia|]. split; [cbn; lia|].
-      unfold within. nia.
+      exists (bx, by_, 1), 1, 1. split; [unfold at_param; cbn [fst snd]; repeat split; try lia; ring|]. split; [cbn [snd]; lia|].
+      unfold within.
+      replace (x * 1 - bx * w) with (x - w * bx) by ring. replace (y * 1 - by_ * w) with (y - w * by_) by ring.
+      replace (w * 1 * (w * 1)) with (w * w) by ring. exact H.
     + (* the foot of the perpendicular: parameter dot / (w len) *)
       apply Z.leb_le in H.
       set (dot := ux * vx + uy * vy) in *. set (len := ux * ux + uy * uy) in *.
-      assert (Hlen : 0 < len) by nia.
+      assert (Hlen : 0 < len).
+      { assert (0 <= ux * ux) by apply Z.square_nonneg. assert (0 <= uy * uy) by apply Z.square_nonneg.
+        destruct (Z.eq_dec len 0) as [E|E]; [|subst len; lia]. rewrite E in He. lia. }
+      assert (Hwl : 0 < w * len) by (apply Z.mul_pos_pos; assumption).
       exists (w * len * ax + dot * ux, w * len * ay + dot * uy, w * len), dot, (w * len).
-      split; [unfold at_param; cbn [fst snd]; subst ux uy; repeat split; try nia; ring|].
-      split; [cbn; nia|].
+      split; [unfold at_param; cbn [fst snd]; subst ux uy; repeat split; try lia; ring|].
+      split; [cbn [snd]; exact Hwl|].
       unfold within.
       set (cr := ux * vy - uy * vx) in *.
-      (* q - foot, cross-multiplied, is (w/len-free) proportional to the normal: Lagrange's identity *)
+      (* q - foot, cross-multiplied, is proportional to the normal: Lagrange's identity *)
       assert (Ex : x * (w * len) - (w * len * ax + dot * ux) * w = w * (len * vx - dot * ux)) by (subst vx; ring).
       assert (Ey : y * (w * len) - (w * len * ay + dot * uy) * w = w * (len * vy - dot * uy)) by (subst vy; ring).
       rewrite Ex, Ey.
@@ -121,5 +130,82 @@ Proof.
         with (w * w * (len * (cr * cr))) by (rewrite <- L; ring).
       replace (tn * tn * (w * (w * len) * (w * (w * len)))) with ((w * w * len) * (tn * tn * (w * w * len))) by ring.
       replace (w * w * (len * (cr * cr)) * (td * td)) with ((w * w * len) * (cr * cr * (td * td))) by ring.
-      apply Z.mul_le_mono_nonneg_l; [nia|]. nia.
+      apply Z.mul_le_mono_nonneg_l.
+      * apply Z.mul_nonneg_nonneg; [apply Z.square_nonneg|lia].
+      * exact H.
+Qed.
+
+(* near_seg = false: EVERY point of the closed segment is farther than tol from q *)
+Theorem near_seg_complete : forall tn td x y w a b c n m,
+  0 < w -> 0 <= tn -> 0 < td ->
+  near_seg tn td (x, y, w) a b = false ->
+  at_param c a b n m -> 0 < snd c -> ~ within tn td (x, y, w) c.
+Proof.
+  intros tn td x y w [ax ay] [bx by_] [[cx cy] cw] n m Hw Htn Htd H (Hm & Hn & Ecx & Ecy) Hcw Hin.
+  cbn [fst snd] in *. unfold within in Hin.
+  unfold near_seg in H; cbn [fst snd] in H.
+  set (ux := bx - ax) in *. set (uy := by_ - ay) in *.
+  set (vx := x - w * ax) in *. set (vy := y - w * ay) in *.
+  set (dot := ux * vx + uy * vy) in *. set (len := ux * ux + uy * uy) in *.
+  (* F = |m v - n w u|^2 *)
+  set (fx := m * vx - n * w * ux). set (fy := m * vy - n * w * uy).
+  assert (Fx : m * (x * cw - cx * w) = cw * fx).
+  { replace (m * (x * cw - cx * w)) with (cw * (m * x) - w * (m * cx)) by ring. rewrite Ecx. subst fx vx ux. ring. }
+  assert (Fy : m * (y * cw - cy * w) = cw * fy).
+  { replace (m * (y * cw - cy * w)) with (cw * (m * y) - w * (m * cy)) by ring. rewrite Ecy. subst fy vy uy. ring. }
+  (* within, multiplied by m^2 and divided by cw^2:  F td^2 <= tn^2 w^2 m^2 *)
+  assert (HF : (fx * fx + fy * fy) * (td * td) <= tn * tn * (w * w) * (m * m)).
+  { assert (Hmm : 0 <= m * m) by apply Z.square_nonneg.
+    pose proof (Z.mul_le_mono_nonneg_l _ _ (m * m) Hmm Hin) as Hin'.
+    replace (m * m * (((x * cw - cx * w) * (x * cw - cx * w) + (y * cw - cy * w) * (y * cw - cy * w)) * (td * td)))
+      with (((m * (x * cw - cx * w)) * (m * (x * cw - cx * w)) + (m * (y * cw - cy * w)) * (m * (y * cw - cy * w))) * (td * td)) in Hin' by ring.
+    rewrite Fx, Fy in Hin'.
+    replace ((cw * fx * (cw * fx) + cw * fy * (cw * fy)) * (td * td)) with ((cw * cw) * ((fx * fx + fy * fy) * (td * td))) in Hin' by ring.
+    replace (m * m * (tn * tn * (w * cw * (w * cw)))) with ((cw * cw) * (tn * tn * (w * w) * (m * m))) in Hin' by ring.
+    apply Z.mul_le_mono_pos_l in Hin'; [exact Hin'|]. apply Z.mul_pos_pos; assumption. }
+  assert (Hlen0 : 0 <= len) by (subst len; assert (0 <= ux * ux) by apply Z.square_nonneg; assert (0 <= uy * uy) by apply Z.square_nonneg; lia).
+  assert (Hmm : 0 < m * m) by (apply Z.mul_pos_pos; assumption).
+  destruct (Z.leb_spec dot 0) as [Hd|Hd].
+  - (* the nearest point is a:  F >= m^2 |v|^2 *)
+    apply Z.leb_gt in H.
+    assert (E : fx * fx + fy * fy = m * m * (vx * vx + vy * vy) + (2 * m * n * w) * (- dot) + (n * w) * (n * w) * len)
+      by (subst fx fy dot len; ring).
+    assert (0 <= (2 * m * n * w) * (- dot)) by (apply Z.mul_nonneg_nonneg; [repeat apply Z.mul_nonneg_nonneg; lia|lia]).
+    assert (0 <= (n * w) * (n * w) * len) by (apply Z.mul_nonneg_nonneg; [apply Z.square_nonneg|assumption]).
+    assert (G : m * m * (vx * vx + vy * vy) <= fx * fx + fy * fy) by lia.
+    assert (G2 : m * m * (vx * vx + vy * vy) * (td * td) <= (fx * fx + fy * fy) * (td * td))
+      by (apply Z.mul_le_mono_nonneg_r; [apply Z.square_nonneg|exact G]).
+    assert (G3 : m * m * (tn * tn * (w * w)) < m * m * ((vx * vx + vy * vy) * (td * td)))
+      by (apply Z.mul_lt_mono_pos_l; assumption).
+    lia.
+  - destruct (Z.leb_spec (w * len) dot) as [He|He].
+    + (* the nearest point is b:  F >= m^2 |z|^2, z = v - w u *)
+      apply Z.leb_gt in H.
+      set (zx := x - w * bx) in *. set (zy := y - w * by_) in *.
+      assert (E : fx * fx + fy * fy = m * m * (zx * zx + zy * zy) + (2 * m * (m - n) * w) * (dot - w * len) + ((m - n) * w) * ((m - n) * w) * len)
+        by (subst fx fy dot len zx zy vx vy ux uy; ring).
+      assert (0 <= (2 * m * (m - n) * w) * (dot - w * len)) by (apply Z.mul_nonneg_nonneg; [repeat apply Z.mul_nonneg_nonneg; lia|lia]).
+      assert (0 <= ((m - n) * w) * ((m - n) * w) * len) by (apply Z.mul_nonneg_nonneg; [apply Z.square_nonneg|assumption]).
+      assert (G : m * m * (zx * zx + zy * zy) <= fx * fx + fy * fy) by lia.
+      assert (G2 : m * m * (zx * zx + zy * zy) * (td * td) <= (fx * fx + fy * fy) * (td * td))
+        by (apply Z.mul_le_mono_nonneg_r; [apply Z.square_nonneg|exact G]).
+      assert (G3 : m * m * (tn * tn * (w * w)) < m * m * ((zx * zx + zy * zy) * (td * td)))
+        by (apply Z.mul_lt_mono_pos_l; assumption).
+      lia.
+    + (* the nearest point is the foot:  F len = (m dot - n w len)^2 + m^2 cr^2 *)
+      apply Z.leb_gt in H.
+      set (cr := ux * vy - uy * vx) in *.
+      assert (Hlen : 0 < len).
+      { destruct (Z.eq_dec len 0) as [E|E]; [|lia]. rewrite E in He. lia. }
+      assert (E : (fx * fx + fy * fy) * len = (m * dot - n * w * len) * (m * dot - n * w * len) + m * m * (cr * cr))
+        by (subst fx fy dot len cr; ring).
+      assert (0 <= (m * dot - n * w * len) * (m * dot - n * w * len)) by apply Z.square_nonneg.
+      assert (G : m * m * (cr * cr) <= (fx * fx + fy * fy) * len) by lia.
+      assert (G2 : m * m * (cr * cr) * (td * td) <= (fx * fx + fy * fy) * len * (td * td))
+        by (apply Z.mul_le_mono_nonneg_r; [apply Z.square_nonneg|exact G]).
+      assert (G3 : m * m * (tn * tn * (w * w * len)) < m * m * (cr * cr * (td * td)))
+        by (apply Z.mul_lt_mono_pos_l; assumption).
+      assert (G4 : (fx * fx + fy * fy) * (td * td) * len <= tn * tn * (w * w) * (m * m) * len)
+        by (apply Z.mul_le_mono_nonneg_r; [lia|exact HF]).
+      lia.
 Qed.
